@@ -33,6 +33,8 @@ type scenario struct {
 	hold   bool // replicas may withhold their answer until DoBatch has returned
 	pool   bool // custom Go spawner
 	big    bool // many hook points: explored with one preemption less
+	rf     int  // ReplicationFactor() reported by the ring (0 = largest replica set)
+	ninst  int  // InstancesCount() reported by the ring (0 = number of distinct replicas)
 }
 
 type fakeRing struct{ sc scenario }
@@ -45,8 +47,22 @@ func (f fakeRing) Get(key uint32, _ ring.Operation, buf []ring.InstanceDesc, _, 
 	}
 	return ring.ReplicationSet{Instances: out, MaxErrors: ks.maxErrors}, nil
 }
-func (f fakeRing) ReplicationFactor() int { return 3 }
+func (f fakeRing) ReplicationFactor() int {
+	if f.sc.rf > 0 {
+		return f.sc.rf
+	}
+	n := 1
+	for _, k := range f.sc.keys {
+		if len(k.replicas) > n {
+			n = len(k.replicas)
+		}
+	}
+	return n
+}
 func (f fakeRing) InstancesCount() int {
+	if f.sc.ninst > 0 {
+		return f.sc.ninst
+	}
 	s := map[string]bool{}
 	for _, k := range f.sc.keys {
 		for _, r := range k.replicas {
@@ -77,6 +93,8 @@ func scenarios() []scenario {
 		{name: "1key-3rep-m1", keys: []keySpec{{[]string{"A", "B", "C"}, 1}}},
 		{name: "2keys-shared-3rep-m1", big: true, keys: []keySpec{{[]string{"A", "B", "C"}, 1}, {[]string{"B", "C", "D"}, 1}}},
 		{name: "3keys-rf1-uneven", keys: []keySpec{{[]string{"A"}, 0}, {[]string{"B"}, 0}, {[]string{"A"}, 0}}},
+		{name: "3keys-rf1-uneven-of4", rf: 1, ninst: 4, keys: []keySpec{{[]string{"A"}, 0}, {[]string{"B"}, 0}, {[]string{"A"}, 0}}},
+		{name: "3keys-rf1-uneven-of8", rf: 1, ninst: 8, keys: []keySpec{{[]string{"B"}, 0}, {[]string{"A"}, 0}, {[]string{"B"}, 0}}},
 		{name: "2keys-2rep-m0", keys: []keySpec{{[]string{"A", "B"}, 0}, {[]string{"A", "B"}, 0}}},
 	}
 	if ev.Thorough() {
